@@ -112,3 +112,13 @@ package runner
 //@   loop 1
 //@     invariant [len] len(matches) == len(entry(matches))
 //@     invariant [cleaned] forall k int :: 0 <= k && k < $i ==> filepath.Clean(matches[k]) == matches[k]
+
+// C15 / C03: the built-in parameter functions are exactly env, envInt and todo, bound to the generated helpers
+//@ func (StepDefaultInput).Run
+//@   property C15 C03 C12
+//@   requires i != nil
+//@   modifies i.Meta
+//@   ensures [builtins] result == nil && (forall f string :: (f in i.Meta.Functions) <==> (f == "env" || f == "envInt" || f == "todo"))
+//@        && i.Meta.Functions["env"] == "getEnv" && i.Meta.Functions["envInt"] == "getEnvInt" && i.Meta.Functions["todo"] == "paramTodo"
+//@   ensures [rest_of_meta_kept] i.Meta.Pkg == old(i.Meta.Pkg) && i.Meta.ContainerType == old(i.Meta.ContainerType) && i.Meta.ContainerConstructor == old(i.Meta.ContainerConstructor)
+//@        && i.Meta.DefaultMustGetter == old(i.Meta.DefaultMustGetter) && i.Meta.Imports == old(i.Meta.Imports)
